@@ -15,6 +15,8 @@ pub fn run_check(prop: &str, tier: Tier, seed: u64) -> Option<Verdict> {
     crate::history::assert_layout();
     crate::shadow::install();
     crate::outcome::silence_panics();
+    // initialise lazily built tables now: their one-time allocations must not fall into a measured window
+    let _ = crate::statics::pool();
     if let Some(v) = replay_corpus(prop, tier, seed) {
         return Some(v);
     }
